@@ -93,6 +93,10 @@ func (e *c11Env) call(name string, f func() error) (err error, verdict *vVerdict
 			if (strings.Contains(g, "runLaterIfActive") || strings.Contains(g, "ConfigureMixFraction")) && (strings.Contains(g, "[chan send") || strings.Contains(g, "[chan receive")) {
 				return true
 			}
+			// waiting in runLaterIfActive's select although no source runs any more (nobody will ever take the request)
+			if strings.Contains(g, "runLaterIfActive") && strings.Contains(g, "[select") && !e.sc.ActiveSource.Running() {
+				return true
+			}
 		}
 		return false
 	}
@@ -247,6 +251,9 @@ func c11Run(c c11Case) (v vVerdict) {
 				if bad := stopSource(); bad != nil {
 					return *bad
 				}
+				if sc.isSourceActive {
+					return vFailf("stop-left-active", "step %d: the source ended itself, Stop was called and returned, yet the RPC layer still has an active source (every later Start is refused)", i)
+				}
 			}
 			src := c.Source
 			if c.RealRPC || src == "erroring" {
@@ -346,7 +353,37 @@ func c11Run(c c11Case) (v vVerdict) {
 			if e.scripted == nil || !e.running || c.RealRPC {
 				continue
 			}
-			e.scripted.ctl <- st.Kind
+			if st.Flag && e.mon != nil && !vMonQuiet {
+				// the source ends itself while a request has been waiting for the core loop for a while:
+				// one block is made to take 60 ms, the request is issued during it, the source is told to end 25 ms later
+				oldSlow := e.mon.slow
+				e.mon.slow = 60 * time.Millisecond
+				p0 := atomic.LoadInt64(&e.mon.processed)
+				until := time.Now().Add(2 * time.Second)
+				for (atomic.LoadInt32(&e.mon.inProcess) == 0 || atomic.LoadInt64(&e.mon.processed) == p0) && time.Now().Before(until) {
+					time.Sleep(200 * time.Microsecond)
+				}
+				type res struct {
+					err error
+					bad *vVerdict
+				}
+				pending := make(chan res, 1)
+				go func() {
+					off := false
+					err, bad := e.call("CoupleErrToFB", func() error { var r bool; return sc.CoupleErrToFB(&off, &r) })
+					pending <- res{err, bad}
+				}()
+				time.Sleep(25 * time.Millisecond)
+				e.scripted.ctl <- st.Kind
+				r := <-pending
+				e.mon.slow = oldSlow
+				if r.bad != nil {
+					return *r.bad
+				}
+				e.classes["self-ended-with-request-pending"] = true
+			} else {
+				e.scripted.ctl <- st.Kind
+			}
 			deadline := time.Now().Add(5 * time.Second)
 			for sc.ActiveSource.Running() && time.Now().Before(deadline) {
 				time.Sleep(time.Millisecond)
@@ -750,7 +787,10 @@ func c11Gen(t *rapid.T) c11Case {
 	case 0:
 		c.Steps = append(c.Steps, c11Step{Op: "stop"})
 	case 1, 2:
-		c.Steps = append(c.Steps, c11Step{Op: "selfend", Kind: rapid.SampledFrom([]string{"error", "close"}).Draw(t, "endkind")})
+		c.Steps = append(c.Steps, c11Step{Op: "selfend", Kind: rapid.SampledFrom([]string{"error", "close"}).Draw(t, "endkind"), Flag: rapid.IntRange(0, 2).Draw(t, "pendingreq") == 0})
+		if rapid.IntRange(0, 2).Draw(t, "stopafterend") == 0 {
+			c.Steps = append(c.Steps, c11Step{Op: "stop"})
+		}
 	}
 	some("after", 1, 4)
 	if rapid.Bool().Draw(t, "restart") {
